@@ -832,14 +832,29 @@ impl SimHooks for World {
                 w.probes.bump("create_len_mismatch");
             }
         } else if let Some(sh) = w.shadows.get_mut(&name) {
-            sh.append_mode = true;
+            // whether the kernel moves positional writes to the end of file is reported by `opened_append`
+            sh.append_mode = false;
         } else {
             let content = std::fs::read(path).unwrap_or_default();
-            let sh = Shadow { synced_len: content.len() as u64, durable: content.clone(), content, created_ms: now, append_mode: true, ..Default::default() };
+            let sh = Shadow { synced_len: content.len() as u64, durable: content.clone(), content, created_ms: now, append_mode: false, ..Default::default() };
             if let FileKind::Blob(id) = kind {
                 w.ids_seen.insert(id);
             }
             w.shadows.insert(name, sh);
+        }
+    }
+
+    fn opened_append(&self, path: &Path, append: bool) {
+        if self.inner.borrow().is_foreign(path) {
+            return;
+        }
+        let mut w = self.inner.borrow_mut();
+        let name = w.rel(path);
+        if append {
+            w.probes.bump("descriptor_with_o_append");
+        }
+        if let Some(sh) = w.shadows.get_mut(&name) {
+            sh.append_mode = append;
         }
     }
 
